@@ -229,40 +229,35 @@ def iterpath(obj, path=None):
     if path is None:
         path = []
 
-    for varname, varobj in iter(sorted(obj.items())):
-        path.append(varname)
-        yield (path, varobj)
+    # The walk keeps its own stack instead of nesting one generator per level:
+    # a caller may stop iterating at any point, and abandoning a deep chain of
+    # suspended generators overflows the interpreter's stack.
+    stack = [_iterpath_children(obj)]
+    while stack:
+        for name, value in stack[-1]:
+            path.append(name)
+            yield (path, value)
 
-        if isinstance(varobj, collections.abc.Mapping):
+            if isinstance(value, (collections.abc.Mapping, list)):
+                stack.append(_iterpath_children(value))
+                break
 
-            for item in iterpath(varobj, path):
-                yield item
-
-        elif isinstance(varobj, list):
-
-            for item in _iterpath_list(varobj, path):
-                yield item
-
-        path.pop()
+            path.pop()
+        else:
+            stack.pop()
+            if stack:
+                # done with a nested container: drop its name
+                path.pop()
 
 
-def _iterpath_list(list_, path):
-    """Walk the elements of a list (and of lists nested directly in it)."""
-    for i, item in enumerate(list_):
-        index = '[{0}]'.format(i)
-        path.append(index)
+def _iterpath_children(container):
+    """The (path step, value) pairs of a mapping (in sorted order) or a list."""
+    if isinstance(container, collections.abc.Mapping):
+        return iter(sorted(container.items()))
 
-        yield (path, item)
-
-        if isinstance(item, collections.abc.Mapping):
-            for descendant in iterpath(item, path):
-                yield descendant
-
-        elif isinstance(item, list):
-            for descendant in _iterpath_list(item, path):
-                yield descendant
-
-        path.pop()
+    return (
+        ('[{0}]'.format(i), item) for i, item in enumerate(container)
+    )
 
 
 def check_tlp_marking(marking_obj, spec_version):
